@@ -588,11 +588,25 @@ def run_intarr(ctx, u):
         idx = np.array(tris, dtype=int)
         as_int = (i % 3 != 2)
         verts = V.astype(np.int64) if as_int else V.astype(float)
+        from_end = (i % 4 == 1)
+        if from_end:
+            # some vertex indices written from the end (wrap-around constructions: the last vertex as -1, a fan around a hub at -1):
+            # the set is the triangles vertices[indices] in NumPy's meaning
+            sel = rng.random(idx.shape) < 0.4
+            sel[0, 0] = True
+            idx = np.where(sel, idx - len(verts), idx)
         ok, A = ctx.guarded("array_direct:construct", ctx.AT, indices=idx.copy(), vertices=verts.copy())
         if not ok:
             continue
+        own = np.asarray(verts, dtype=float)[idx]
+        ctx.check(tri(A).shape == own.shape and np.array_equal(tri(A), own), "array_direct:triangles_are_vertices_at_indices", indices=idx, vertices=verts,
+                  got=lambda: tri(A), expected=own)
+        ok2, sel_set = ctx.guarded("array_direct:construct", A.for_indexes, np.arange(len(idx))[::-1].copy())
+        if ok2:
+            ctx.check(same_multiset(tri(sel_set), own), "array_direct:triangles_are_vertices_at_indices", what="for_indexes(all, reversed)", expected=own,
+                      got=lambda: tri(sel_set))
         run_set(ctx, "array", A, False, rng, 2, npoints=3)
-        ctx.case("intarr", V, idx, as_int, nontrivial=True, cls=["array_direct", "vertices_int_dtype" if as_int else "vertices_float_dtype"],
+        ctx.case("intarr", V, idx, as_int, nontrivial=True, cls=["array_direct", "vertices_int_dtype" if as_int else "vertices_float_dtype"] + (["indices_written_from_the_end"] if from_end else []),
                  sample=lambda: {"kind": "vertex-array set", "vertices": V.tolist(), "indices": idx.tolist(), "dtype": str(verts.dtype)})
 
 
